@@ -11,7 +11,7 @@ WORDS = ["ash", "bell", "cove", "dune", "elm", "fog", "gate", "hill", "ivy", "je
 
 ALL_FEATURES = {"print", "glue", "tags", "icond", "iseq", "set", "temp", "block_if", "block_seq", "choices", "nested",
                 "labels", "fallback", "conds", "sticky", "counts", "turns", "loops", "tunnels", "threads", "choice_print",
-                "done", "functions", "choice_tags", "stitches", "typed_vars", "if_diverts"}
+                "done", "functions", "choice_tags", "stitches", "typed_vars", "if_diverts", "cond_choices"}
 
 
 # a logic line (~) that calls a function ends the line of whatever the function printed
@@ -328,6 +328,23 @@ class Gen:
         # output was a tag)
         return [{"k": "if", "br": br}, {"k": "nl"}], ["%s{" % ind] + lines + ["%s}" % ind]
 
+    def cond_choice(self, ind):
+        """a choice inside a conditional block: it is generated, the flow goes on after the block and the choice stays
+        pending while further lines (threads, tunnels) are printed; its body ends in a divert (there is no gather)"""
+        c, tc = ({"k": "lit", "v": {"t": "bool", "v": True}}, "true") if self.p(0.6) else self.expr(boolean=True)
+        o, to = self.lower(self.segments(False, False, False, 1, 2))
+        saved = list(self.temps)
+        bs, bl = self.simple_block(ind + "        ", self.r.randint(1, 2))
+        self.temps = saved
+        saved_ac, self.after_choice = self.after_choice, True
+        ds, dl = self.divert(ind + "        ")
+        self.after_choice = saved_ac
+        choice = {"cid": self.fresh("#c"), "start": self.body([]), "only": self.body(o), "out": self.body([{"k": "nl"}]),
+                  "body": self.body(bs + ds), "conds": [], "sticky": False, "fb": False}
+        branch = self.body([{"k": "nl"}, {"k": "chc", "cs": [choice], "rest": self.body([])}])
+        lines = ["%s{ %s:" % (ind, tc), "%s    * [%s]" % (ind, to)] + bl + dl + ["%s}" % ind]
+        return [{"k": "if", "br": [{"c": c, "b": branch}]}, {"k": "nl"}], lines
+
     def block_seq(self, ind):
         mode, kw = self.r.choice([("stop", "stopping"), ("cycle", "cycle"), ("once", "once")])
         alts, lines = [], ["%s{ %s:" % (ind, kw)]
@@ -394,6 +411,9 @@ class Gen:
                 s, l = self.line(ind)
             elif k < 0.68 and self.has("set"):
                 s, l = self.logic(ind)
+            elif k < 0.70 + (0.06 if self.focus == "threads" else 0.015) and self.has("cond_choices") and level == 1 \
+                    and self.kinds.get(self.cur.split(".")[0], "knot") == "knot":
+                s, l = self.cond_choice(ind)
             elif k < 0.78 and self.has("block_if"):
                 s, l = self.block_if(ind)
             elif k < 0.86 and self.has("block_seq"):
@@ -405,20 +425,35 @@ class Gen:
                 # of one container fall into a single look-ahead of the engine
                 reps = self.r.randint(2, 3) if self.p(0.9 if self.focus == "bursts" else 0.35) else 1
                 s, l = [{"k": "tun", "t": t}] * reps, ["%s-> %s ->" % (ind, t)] * reps
-            elif k < 0.97 and self.has("threads") and self.thread_names() and level == 1:
-                t = self.r.choice(self.thread_names())
-                s, l = [{"k": "thr", "t": t}], ["%s<- %s" % (ind, t)]
+            elif (k < 0.97 or self.focus == "threads") and k >= (0.7 if self.focus == "threads" else 0.92) \
+                    and self.has("threads") and self.thread_names() and level == 1:
+                ts = [self.r.choice(self.thread_names())]
+                if self.focus == "threads" and len(self.thread_names()) > 1:
+                    # two threads in a row: one leaves its choices behind, the other is still printing lines at the next
+                    # line end - several live threads while an earlier thread's choice is pending
+                    ts = self.r.sample(self.thread_names(), 2)
+                s, l = [{"k": "thr", "t": t} for t in ts], ["%s<- %s" % (ind, t) for t in ts]
             else:
                 s, l = self.line(ind)
             stmts += s
             lines += l
         return stmts, lines
 
+    def callable_from_here(self, kind):
+        """tunnels / thread knots that may be entered from the current knot: from a tunnel or thread knot only those
+        declared after it (no cycles of tunnels and threads: the call stack would grow without a turn ever ending)"""
+        names = [n for n, k in self.kinds.items() if k == kind]
+        here = self.cur.split(".")[0]
+        if self.kinds.get(here) in ("tunnel", "thread"):
+            order = [n for n, k in self.kinds.items() if k in ("tunnel", "thread")]
+            names = [n for n in names if order.index(n) > order.index(here)]
+        return names
+
     def tunnel_names(self):
-        return [n for n, k in self.kinds.items() if k == "tunnel" and n != self.cur]
+        return self.callable_from_here("tunnel")
 
     def thread_names(self):
-        return [n for n, k in self.kinds.items() if k == "thread" and n != self.cur]
+        return self.callable_from_here("thread")
 
     def choice_block(self, level, tail):
         """a block of choices at `level` followed by its gather; `tail(ind)` -> (stmts, lines) is what follows the
@@ -574,6 +609,13 @@ class Gen:
             e, el = ending(ind)
             return s + e, l + el
 
+        if kind == "thread" and self.focus == "threads" and self.cur.endswith("1"):
+            # a thread of text only, several lines long
+            for _ in range(2):
+                s_, l_ = self.line("")
+                stmts += s_
+                lines += l_
+            return stmts + [{"k": "done"}], lines + ["-> DONE"]
         if self.has("choices") and kind != "tunnel" and self.p(0.75 if kind == "knot" else 1.0):
             c, cl = self.choice_block(1, tail1 if kind == "knot" else (lambda ind: ending(ind)))
             stmts += c
@@ -644,7 +686,7 @@ class Gen:
             for i in range(r.randint(1, 2) if self.focus == "bursts" else r.randint(0, 2)):
                 extra.append(("u%d" % i, "tunnel"))
         if self.has("threads"):
-            for i in range(r.randint(0, 2)):
+            for i in range(2 if self.focus == "threads" else r.randint(0, 2)):
                 extra.append(("h%d" % i, "thread"))
         for n, k in extra:
             self.kinds[n] = k
@@ -693,7 +735,10 @@ class Gen:
                     first = first or (b, st)
                     src.append("= %s" % st.split(".")[1])
                     src += lines
-                self.knots[n] = {"body": first[0], "kind": "knot", "params": [], "chain": [n, first[1]], "auto": True}
+                # (the knot's own content is the divert to its first stitch)
+                self.cur = n
+                self.knots[n] = {"body": self.body([{"k": "div", "t": first[1]}]), "kind": "knot", "params": [], "chain": [n],
+                                 "auto": False}
                 continue
             self.cur = n
             self.temps = []
